@@ -21,6 +21,7 @@ type Info struct {
 	EmitNotLast  bool // matched a rule whose emit/discard is not written last
 	Discards     [][2]int
 	Steps        int
+	Errors       int // lexical errors after which lexing went on (LexOn)
 }
 
 // RefLexer is the property text made executable.
@@ -85,11 +86,22 @@ func (r *RefLexer) Step(mode int, in []byte, pos int, skip map[int]bool) (win, e
 }
 
 // Lex returns the token stream up to and including the first ERROR or EOF.
-func (r *RefLexer) Lex(in []byte) ([]Tok, Info) {
+func (r *RefLexer) Lex(in []byte) ([]Tok, Info) { return r.lex(in, false) }
+
+// LexOn goes on after a lexical error the way the reference driver (simplelexer) does: the
+// character that failed and everything up to and including the next newline is skipped, the state
+// machine is Reset (default mode) and lexing continues. What is left on the mode stack at that
+// moment is unspecified: the stream stops before a @pop_mode that would reach below it
+// (Info.PopEmpty). Everything else - in particular "after @pop_mode, the mode that was current
+// before the matching @push_mode" - is as specified as before the error.
+func (r *RefLexer) LexOn(in []byte) ([]Tok, Info) { return r.lex(in, true) }
+
+func (r *RefLexer) lex(in []byte, goOn bool) ([]Tok, Info) {
 	var out []Tok
 	var info Info
 	mode := 0
 	var stack []int
+	floor := 0 // entries below this index were pushed before the last error
 	pos, start := 0, 0
 	accumPending := false
 	for {
@@ -143,7 +155,31 @@ func (r *RefLexer) Lex(in []byte) ([]Tok, Info) {
 				}
 				info.PendingAtEOF = true
 			}
-			return append(out, Tok{"ERROR", start, start}), info
+			out = append(out, Tok{"ERROR", start, start})
+			if !goOn {
+				return out, info
+			}
+			if p >= len(in) {
+				// the input ended inside a token: after the ERROR the driver reports EOF
+				return append(out, Tok{"EOF", len(in), len(in)}), info
+			}
+			// the driver's recovery: drop the character that failed and the rest of its line
+			info.Errors++
+			q := p
+			for {
+				c, n := DecodeRune(in, q)
+				if c == -1 {
+					break
+				}
+				q += n
+				if c == '\n' {
+					break
+				}
+			}
+			pos, start = q, q
+			mode, floor = 0, len(stack)
+			accumPending = false
+			continue
 		}
 		rule := r.S.Modes[mode].Rules[win]
 		// mode actions in written order
@@ -161,7 +197,7 @@ func (r *RefLexer) Lex(in []byte) ([]Tok, Info) {
 					info.MaxDepth = len(stack)
 				}
 			case "pop":
-				if len(stack) == 0 {
+				if len(stack) <= floor {
 					info.PopEmpty = true
 					return out, info
 				}
